@@ -275,7 +275,7 @@ Fixpoint jexp_bytes (e : jexp) : bool :=
 Definition match_double (bits : Z) (j : json) : bool :=
   f64_is_finite bits &&
   match j with
-  | JNum l => match lex2f64 l with Some b => b =? bits | None => false end
+  | JNum l => lex_is_f64 l bits
   | _ => false
   end.
 
@@ -340,7 +340,7 @@ Section Quirks.
     | EBool b => match_lit (if b then lit_true else lit_false) bs
     | EInt z => qnum (fun l => lex_eq_int l z) bs
     | EDouble bits =>
-      if f64_is_finite bits then qnum (fun l => match lex2f64 l with Some b => b =? bits | None => false end) bs
+      if f64_is_finite bits then qnum (fun l => lex_is_f64 l bits) bs
       else if q301 then Some bs else None
     | EStr s => qstr s bs
     | EStrV s => if q302 then match_lit (34 :: s ++ [34]) bs else qstr s bs
